@@ -159,6 +159,10 @@ Definition dec_xinstr (s : sexp) : option xinstr :=
   | SL [SA "lazy-flatten-keys"; l; sep] => match dec_nat l, dec_str sep with Some l, Some sep => Some (XLazyFlatten l sep) | _, _ => None end
   | SL [SA "memmap_"; r] => option_map XMemmap (dec_nat r)
   | SL [SA "share_memory_"; r] => option_map XShare (dec_nat r)
+  | SL [SA "lazy-dense"; l; cl] => match dec_nat l, dec_bool cl with Some l, Some cl => Some (XLazyDense l cl) | _, _ => None end
+  | SL [SA "lazy-narrow"; l; js; nb; sels] =>
+      match dec_nat l, dec_list dec_nat js, dec_nat nb, dec_list (dec_list dec_nat) sels with
+      | Some l, Some js, Some nb, Some sels => Some (XLazyNarrow l js nb sels) | _, _, _, _ => None end
   | _ => option_map XB (dec_instr s)
   end.
 
